@@ -212,6 +212,14 @@ def o_key_address(case):
                         code, name, secret, comp, not comp, other, exp_o))
                 if key.hash160() != hs[comp]:
                     _bad("key:hash160", "%s hash160 of key %d" % (code, secret))
+                # the public copy of a key that has already been asked for its addresses: both forms again
+                pc = key.public_copy()
+                for c2 in (True, False):
+                    e2 = refaddr.address_for("p2pkh", hs[c2], pf)
+                    g2 = pc.address(is_compressed=c2)
+                    if g2 != e2 or pc.hash160(is_compressed=c2) != hs[c2]:
+                        _bad("key:address!=script-address", "%s public_copy() of the %s key (secret %d, compressed=%s): address(is_compressed=%s) "
+                             "= %r, p2pkh address of that form's hash160 %r" % (code, name, secret, comp, c2, g2, e2))
             c = parse_addr(code, exp)
             if c is None or c.script() != refaddr.p2pkh_script(hs[comp]):
                 _bad("address:roundtrip-script", "%s key address %r does not parse to the p2pkh script of the key hash" % (code, exp))
